@@ -1,7 +1,7 @@
 (* The state invariant of the row-level model (model/Cache.v) and its preservation by every API call.
 
      Sinv s = rowids strictly ascending and positive, (key, raw) unique under the comparison the lookups use,
-              no REAL-NaN key, every referenced file present with the recorded size, files referenced at
+              no REAL-NaN key and no NULL key, every referenced file present with the recorded size, files referenced at
               most once, all ids below the fresh-name supply, counters exact, and NO ORPHAN file.
 
    Structure: bridge lemmas for the generated statements; facts about refs / the file store; the invariant
@@ -291,6 +291,13 @@ Proof.
           | solve [split; [intros [A B]; repeat split; auto; discriminate | intros [_ [_ [A B]]]; auto]] ].
 Qed.
 
+(* a NULL database key (what the released Disk.put made of float('nan'): FormatFacts.released_put_nan_null) addresses no
+   row, not even one that holds NULL *)
+Lemma null_key_matches_nothing z r : key_match SNull z r = false.
+Proof.
+  destruct (key_match SNull z r) eqn:M; [|reflexivity]. apply key_match_spec in M as [_ [N _]]. congruence.
+Qed.
+
 Lemma b2z_inj a b : b2z a = b2z b -> a = b.
 Proof. destruct a, b; cbn; congruence. Qed.
 
@@ -333,6 +340,15 @@ Proof.
   - intros E; inversion E; reflexivity.
   - intros E; inversion E; reflexivity.
 Qed.
+
+(* ... and never NULL (since the repair of C02-F2 a float NaN key is pickled): DiskFacts.put_never_null *)
+Definition key_nonnull (v : sqlval) : bool := match v with SNull => false | _ => true end.
+
+Lemma key_nonnull_spec v : key_nonnull v = true <-> v <> SNull.
+Proof. destruct v; cbn; split; congruence. Qed.
+
+Lemma put_key_nonnull c k dbk raw : put c k = PutOk dbk raw -> key_nonnull dbk = true.
+Proof. intros P. apply key_nonnull_spec. exact (proj1 (put_never_null c k dbk raw P)). Qed.
 
 (* at most one row answers a lookup *)
 Lemma lookup_unique t k z r r' : keys_unique t -> sv_wf k = true ->
@@ -379,6 +395,7 @@ Record Winv (s : st) : Prop := {
   w_pos : forall r, In r (rows s) -> 0 < rowid r;
   w_keys : keys_unique (rows s);
   w_wf : forall r, In r (rows s) -> sv_wf (rkey r) = true;
+  w_nonnull : forall r, In r (rows s) -> key_nonnull (rkey r) = true;
   w_refs_nd : NoDup (refs s);
   w_fs_nd : NoDup (map fst (fs s));
   w_lt : forall id, In id (refs s) \/ In id (map fst (fs s)) -> id < next_file s;
@@ -407,6 +424,7 @@ Lemma sinv_spec s : Sinv s ->
   rowids_ok s /\ (forall r, In r (rows s) -> 0 < rowid r) /\
   (forall r r', In r (rows s) -> In r' (rows s) -> key_match (rkey r) (b2z (rraw r)) r' = true -> r = r') /\
   (forall r, In r (rows s) -> sv_wf (rkey r) = true) /\
+  (forall r, In r (rows s) -> rkey r <> SNull) /\
   NoDup (refs s) /\ NoDup (map fst (fs s)) /\
   (forall id, In id (refs s) \/ In id (map fst (fs s)) -> id < next_file s) /\
   (forall r id, In r (rows s) -> rfile r = Some id -> exists c, fs_get (fs s) id = Some c /\ fsize c = rsize r) /\
@@ -415,6 +433,7 @@ Lemma sinv_spec s : Sinv s ->
   counters_ok s.
 Proof.
   intros [W O]. repeat split; try apply W; try exact O.
+  - intros r I. apply key_nonnull_spec, (w_nonnull s W), I.
   - intros r id I E. pose proof (w_file s W r I) as F. unfold file_ok in F. rewrite E in F. exact F.
   - intros r I E. pose proof (w_file s W r I) as F. unfold file_ok in F. rewrite E in F. exact F.
 Qed.
@@ -425,6 +444,7 @@ Proof.
   - constructor.
   - intros r [].
   - intros r r' [].
+  - intros r [].
   - intros r [].
   - constructor.
   - constructor.
@@ -531,6 +551,7 @@ Proof.
   - intros r I. apply (w_pos s W), Sub, I.
   - intros r r' I I'. apply (w_keys s W); auto.
   - intros r I. apply (w_wf s W), Sub, I.
+  - intros r I. apply (w_nonnull s W), Sub, I.
   - eapply NoDup_app_l. eapply Permutation_NoDup; [exact Pm|apply W].
   - rewrite Fs. apply W.
   - rewrite Fs, Nf. intros id [I|I]; apply (w_lt s W); auto.
@@ -601,6 +622,8 @@ Proof.
   - rewrite rows_t_update. apply keys_unique_map; [intros r; apply Gid|apply W].
   - intros r. rewrite rows_t_update. intros I. apply in_map_iff in I as [r0 [<- I]]. fold (g r0).
     destruct (Gid r0) as [_ [-> _]]. apply (w_wf s W), I.
+  - intros r. rewrite rows_t_update. intros I. apply in_map_iff in I as [r0 [<- I]]. fold (g r0).
+    destruct (Gid r0) as [_ [-> _]]. apply (w_nonnull s W), I.
   - rewrite Rf. apply W.
   - rewrite Fs. apply W.
   - rewrite Rf, Fs, Nf. apply W.
@@ -655,6 +678,8 @@ Proof.
     intros r. destruct (wh r); [apply Ki|auto].
   - intros r I. destruct (InNew r I) as [->|[I' _]]; [|apply (w_wf s W), I'].
     destruct (Ki r0) as [_ [-> _]]. apply (w_wf s W), I0.
+  - intros r I. destruct (InNew r I) as [->|[I' _]]; [|apply (w_nonnull s W), I'].
+    destruct (Ki r0) as [_ [-> _]]. apply (w_nonnull s W), I0.
   - eapply NoDup_app_r, Nd'.
   - rewrite Fs. apply W.
   - rewrite Fs, Nf. intros id [I|I]; [|apply (w_lt s W); auto].
@@ -686,12 +711,12 @@ Lemma pinv_insert s P mk :
   let n := mk (next_rowid (rows s)) in
   Pinv s P -> inserts_at mk ->
   (forall r, In r (rows s) -> key_match (rkey n) (b2z (rraw n)) r = false) ->
-  sv_wf (rkey n) = true -> fid_ok s (rfile n) (rsize n) ->
+  sv_wf (rkey n) = true -> key_nonnull (rkey n) = true -> fid_ok s (rfile n) (rsize n) ->
   Pinv (t_insert mk s) (fun id => P id /\ Some id <> rfile n) /\
   refs (t_insert mk s) = refs s ++ ofile (rfile n) /\ rows (t_insert mk s) = rows s ++ [n] /\
   fs (t_insert mk s) = fs s /\ next_file (t_insert mk s) = next_file s.
 Proof.
-  intros n [W O] Hm Hk Hw Hfid.
+  intros n [W O] Hm Hk Hw Hnn Hfid.
   assert (Er : rows (t_insert mk s) = rows s ++ [n]) by reflexivity.
   assert (Rf : refs (t_insert mk s) = refs s ++ ofile (rfile n)).
   { unfold refs. rewrite Er, frefs_app. cbn. rewrite app_nil_r. reflexivity. }
@@ -707,6 +732,7 @@ Proof.
     + apply key_match_sym in M. rewrite (Hk r I) in M. discriminate.
     + rewrite (Hk r' I') in M. discriminate.
   - intros r. rewrite Er. intros I. apply in_app_or in I as [I|[<-|[]]]; [apply (w_wf s W), I|exact Hw].
+  - intros r. rewrite Er. intros I. apply in_app_or in I as [I|[<-|[]]]; [apply (w_nonnull s W), I|exact Hnn].
   - rewrite Rf. destruct (rfile n) as [g|]; cbn; [|rewrite app_nil_r; apply W].
     apply NoDup_snoc; [apply W|apply Hfid].
   - apply W.
@@ -725,13 +751,13 @@ Qed.
 (* ---- the INSERT and UPDATE of set / add / incr / push ---- *)
 Lemma pinv_columns_insert s P dbk raw now exp tag sd fid :
   Pinv s P -> (forall r, In r (rows s) -> key_match dbk (b2z raw) r = false) -> sv_wf dbk = true ->
-  fid_ok s fid (s_size sd) ->
+  key_nonnull dbk = true -> fid_ok s fid (s_size sd) ->
   let s2 := t_insert (columns_insert dbk raw now exp tag sd fid) s in
   Pinv s2 (fun id => P id /\ Some id <> fid) /\ refs s2 = refs s ++ ofile fid /\
   rows s2 = rows s ++ [columns_insert dbk raw now exp tag sd fid (next_rowid (rows s))] /\
   fs s2 = fs s /\ next_file s2 = next_file s.
 Proof.
-  intros Hp Hk Hw Hf. apply (pinv_insert s P (columns_insert dbk raw now exp tag sd fid)); auto.
+  intros Hp Hk Hw Hnn Hf. apply (pinv_insert s P (columns_insert dbk raw now exp tag sd fid)); auto.
   apply bridge_columns_insert_at.
 Qed.
 
@@ -856,13 +882,13 @@ Qed.
 (* the tails shared by set / add / incr / push *)
 Lemma sinv_insert_tail c now pg s1 dbk raw exp tag sd fid l :
   Pinv s1 (fun id => Some id = fid) -> fid_ok s1 fid (s_size sd) ->
-  (forall r, In r (rows s1) -> key_match dbk (b2z raw) r = false) -> sv_wf dbk = true ->
+  (forall r, In r (rows s1) -> key_match dbk (b2z raw) r = false) -> sv_wf dbk = true -> key_nonnull dbk = true ->
   let s2 := t_insert (columns_insert dbk raw now exp tag sd fid) s1 in
   (forall o, In o l <-> In o (snd (cull c now pg s2))) ->
   Sinv (fs_remove (fst (cull c now pg s2)) l).
 Proof.
-  intros H1 Fok Hk Hw s2 Hl.
-  destruct (pinv_columns_insert s1 _ dbk raw now exp tag sd fid H1 Hk Hw Fok) as [H2 _]. fold s2 in H2.
+  intros H1 Fok Hk Hw Hnn s2 Hl.
+  destruct (pinv_columns_insert s1 _ dbk raw now exp tag sd fid H1 Hk Hw Hnn Fok) as [H2 _]. fold s2 in H2.
   apply (sinv_finish c now pg s2 [] l).
   - eapply pinv_weaken; [|exact H2]. cbv beta. intros id [A B]. contradiction.
   - intros g [].
@@ -894,6 +920,7 @@ Proof.
     destruct (cull c now pg _) as [s3 cl2] eqn:C. cbn [fst snd] in *. apply Tl; auto.
     + intros r I. eapply filter_nil_none; eauto.
     + eapply put_wf; eauto.
+    + eapply put_key_nonnull; eauto.
     + intros o. cbn. tauto.
   - apply filter_cons_in in F as [I0 _].
     pose proof (sinv_update_tail c now pg s1 r0 (expire_at now e) tag sd fid) as Tl. cbv zeta in Tl.
@@ -912,6 +939,7 @@ Proof.
     destruct (cull c now pg _) as [s3 cl2] eqn:C. cbn [fst snd] in *. apply Tl; auto.
     + intros r I. eapply filter_nil_none; eauto.
     + eapply put_wf; eauto.
+    + eapply put_key_nonnull; eauto.
     + intros o. tauto.
   - apply filter_cons_in in F as [I0 _]. destruct (add_live _ _).
     + cbn [fst]. apply sinv_pinv. eapply pinv_weaken; [|apply (pinv_fs_remove s1 _ [fid] H1)].
@@ -962,6 +990,7 @@ Proof.
       destruct (cull c now pg _) as [s3 cl2] eqn:C. cbn [fst snd] in *. apply Tl; auto.
       + rewrite R1. exact Hu.
       + eapply put_wf; eauto.
+      + eapply put_key_nonnull; eauto.
       + intros o. rewrite app_nil_r. tauto. }
   rewrite bridge_incr_select. destruct (filter _ (rows s)) as [|r0 rs] eqn:F.
   - apply (Fr None). intros r I. eapply filter_nil_none; eauto.
@@ -1029,6 +1058,8 @@ Definition push_fresh (s : st) (prefix : option (list Z)) (sd_ : side) : bool :=
 
 Lemma qkey_make_wf p n : sv_wf (qkey_make p n) = true.
 Proof. destruct p; reflexivity. Qed.
+Lemma qkey_make_nonnull p n : key_nonnull (qkey_make p n) = true.
+Proof. destruct p; reflexivity. Qed.
 
 Lemma sinv_push c s v rd p sd e tag now pg :
   push_fresh s p sd = true -> Sinv s -> Sinv (fst (op_push c s v rd p sd e tag now pg)).
@@ -1041,6 +1072,7 @@ Proof.
   destruct (cull c now pg _) as [s3 cl2] eqn:C. cbn [fst snd] in *. apply Tl; auto.
   - rewrite R1. intros r I. unfold push_fresh in Hp. rewrite forallb_forall in Hp. apply negb_true_iff, Hp, I.
   - apply qkey_make_wf.
+  - apply qkey_make_nonnull.
   - intros o. tauto.
 Qed.
 
